@@ -75,7 +75,7 @@ def lLoop (bs : Nat) : Int → List Char → Nat → Int × Nat
 
 /-- the line with another `tShift` / `sCount` (what the list rule writes, and writes back) -/
 def BLine.retab (l : BLine) (tShift : Nat) (sCount : Int) : BLine :=
-  { l with tShift := tShift, sCount := sCount, empty := decide (l.text.length ≤ tShift) }
+  { l with tShift := tShift, sCount := sCount }
 
 structure ListSt where
   s : BState
